@@ -263,6 +263,11 @@ class Ombott:
         try:
             path = path.encode('latin1').decode('utf8')
         except UnicodeError:
+            # the early return must not leave the previous request's state in
+            # the per-thread request/response objects
+            environ['ombott.app'] = self
+            request.__init__(environ)
+            response.__init__()
             return HTTPError(400, 'Invalid path string. Expected UTF-8')
         environ['PATH_INFO'] = path
         try:  # init thread
